@@ -145,8 +145,6 @@ func (m *observerManager) AddObserver(o *Observer, w *World) {
 		panic("observer callback must be set via Do before registering")
 	}
 
-	o.id = m.pool.Get()
-
 	o.hasComps, o.hasWith, o.hasWithout = false, false, false
 	// The masks depend on the component IDs of the world the observer is registered to.
 	// Reset them, as the observer may have been registered to another world before.
@@ -192,6 +190,9 @@ func (m *observerManager) AddObserver(o *Observer, w *World) {
 		}
 	}
 
+	// Take an ID only now: resolving the component types above may panic
+	// (new type on a locked world, type limit exceeded, non-relation component).
+	o.id = m.pool.Get()
 	m.indices[o.id] = uint32(len(m.observers[o.event]))
 	m.observers[o.event] = append(m.observers[o.event], &o.observerData)
 	m.hasObservers[o.event] = true
